@@ -50,10 +50,11 @@ def validate_translation(seed=SEED):
     _cache['val'] = (int(mm.group(1)), int(mm.group(2)), 'ok')
     return _cache['val']
 
-def ord_lib(roots, tag, cut=(), alias=()):
+STR_CUT = [r'/^std::__cxx11::to_string\(/', r'/std::operator\+<char/']
+def ord_lib(roots, tag, cut=(), alias=(), cut_strings=False):
     """goto library in the order-key domain for the given roots"""
     layout_header()
-    c, m = eval_c(roots, tag, cut=cut, alias=alias)
-    lib = GotoLib(tag, [c] + MODEL_SRCS, ['VR_ORD'], [])
+    c, m = eval_c(roots, tag, cut=list(cut) + (STR_CUT if cut_strings else []), alias=alias)
+    lib = GotoLib(tag, [c] + MODEL_SRCS + ([VERIF + '/models/strstubs.c'] if cut_strings else []), ['VR_ORD'], [])
     lib.map = m
     return lib
